@@ -13,7 +13,7 @@ func init() {
 	vpRegister("idpfaults", func(t *testing.T, env *vpEnv) {
 		env.parallel(16, func(_ int, rng *mrand.Rand, c *vpCase) {
 			flow, call, kind := vpS(c.In, "flow"), vpS(c.In, "call"), vpS(c.In, "kind")
-			cfg := &vpCfg{Store: "redis", Refresh: 3600, Bearer: true, Legacy: map[string]bool{"passAccessToken": true}}
+			cfg := &vpCfg{Store: "redis", Refresh: 3600, Bearer: true, PKCE: "S256", Legacy: map[string]bool{"passAccessToken": true}}
 			if kind == "azp_number" || kind == "azp_list_numbers" {
 				cfg.AudienceClaims = []string{"azp", "aud"}
 			}
@@ -196,6 +196,9 @@ func init() {
 			// the proxy keeps handling other requests: a following well-formed login works
 			j2 := vpNewJar()
 			cb, err := w.login(j2, "bob", "")
+			idp.mu.Lock()
+			obs["pkceOK"] = idp.pkceMisses == 0
+			idp.mu.Unlock()
 			obs["nextOK"] = err == nil && w.sessionCookieEffect(cb) == "set" && w.get(j2, "/private").UpHits > 0
 			env.emit(vpOut{ID: c.ID, Obs: obs})
 		})
